@@ -80,6 +80,83 @@ def _exception_path_returns(body, tr: ast.Try, handler: ast.ExceptHandler) -> li
     return out
 
 
+_NONNEG_FUNCS = {"np.std", "np.var", "np.abs", "np.absolute", "np.fabs", "abs", "np.linalg.norm", "np.sqrt", "np.square", "len", "np.exp", "np.ptp", "np.nanstd", "np.nanvar"}
+_SIGN_PRESERVING = {"np.mean", "np.sum", "np.max", "np.min", "np.amax", "np.amin", "np.median", "np.average", "np.nanmean", "np.asarray", "np.array", "float", "np.atleast_1d", "np.maximum", "np.minimum", "max", "min", "sum"}
+
+
+def _sign(e: ast.expr, env: dict, depth: int = 0) -> str:
+    """'nonneg' | 'any' (raw data / may be negative) | 'unknown' (a construct the analysis does not know)"""
+    if depth > 12:
+        return "unknown"
+    if isinstance(e, ast.Constant):
+        return "nonneg" if isinstance(e.value, (int, float)) and not isinstance(e.value, bool) and e.value >= 0 else ("any" if isinstance(e.value, (int, float)) else "unknown")
+    if isinstance(e, ast.Name):
+        return _sign(env[e.id], env, depth + 1) if e.id in env else "any"
+    if isinstance(e, ast.Attribute):
+        if norm(e) == "self.reference_variance":
+            return "nonneg"  # a configured scale: assumed non-negative (stated in the evidence)
+        if e.attr in ("T",):
+            return _sign(e.value, env, depth + 1)
+        return "any"
+    if isinstance(e, ast.Subscript):
+        return _sign(e.value, env, depth + 1) if not (isinstance(e.value, ast.Attribute) and e.value.attr == "results") else "any"
+    if isinstance(e, ast.UnaryOp):
+        if isinstance(e.op, ast.UAdd):
+            return _sign(e.operand, env, depth + 1)
+        return "any" if isinstance(e.op, ast.USub) else "unknown"
+    if isinstance(e, ast.BinOp):
+        a, b = _sign(e.left, env, depth + 1), _sign(e.right, env, depth + 1)
+        if isinstance(e.op, ast.Pow) and isinstance(e.right, ast.Constant) and isinstance(e.right.value, int) and e.right.value % 2 == 0:
+            return "nonneg" if a != "unknown" else "unknown"
+        if "unknown" in (a, b):
+            return "unknown"
+        if isinstance(e.op, (ast.Add, ast.Mult, ast.Div, ast.FloorDiv)):
+            return "nonneg" if a == b == "nonneg" else "any"
+        return "any"
+    if isinstance(e, ast.Call):
+        fn = norm(e.func)
+        if fn in _NONNEG_FUNCS:
+            return "nonneg"
+        if fn in _SIGN_PRESERVING and e.args:
+            signs = [_sign(a_, env, depth + 1) for a_ in e.args if not isinstance(a_, ast.Starred)]
+            return "unknown" if "unknown" in signs else ("nonneg" if all(s_ == "nonneg" for s_ in signs) else "any")
+        if fn in ("np.full", "np.full_like") and len(e.args) >= 2:
+            return _sign(e.args[1], env, depth + 1)
+        if isinstance(e.func, ast.Attribute) and e.func.attr in ("mean", "sum", "max", "min", "copy", "astype", "reshape", "ravel", "flatten"):
+            return _sign(e.func.value, env, depth + 1)
+        if isinstance(e.func, ast.Attribute) and e.func.attr in ("std", "var"):
+            return "nonneg"
+        return "unknown"
+    if isinstance(e, ast.IfExp):
+        a, b = _sign(e.body, env, depth + 1), _sign(e.orelse, env, depth + 1)
+        return "unknown" if "unknown" in (a, b) else ("nonneg" if a == b == "nonneg" else "any")
+    return "unknown"
+
+
+def _check_nonnegative_schemes(prog: Program, L: Ledger, afb, schemes: ast.Dict) -> None:
+    """R6: the update functions are monotone maps of [0, ∞) onto (0, 1]; a scheme that can return a negative coefficient
+    leaves that domain (tanh/exp of a negative argument exceed 1 → delta above max_delta, non-monotone in the variance)."""
+    n = 0
+    for k, v in zip(schemes.keys, schemes.values):
+        f0 = prog.lookup_method(afb, v.attr) if isinstance(v, ast.Attribute) else None
+        if f0 is None:
+            continue
+        f = flat(prog, f0, afb, public_methods=True)
+        env: dict[str, ast.expr] = {}
+        for st in walk_no_nested(f.node):
+            if isinstance(st, ast.Assign) and len(st.targets) == 1 and isinstance(st.targets[0], ast.Name):
+                env[st.targets[0].id] = st.value if st.targets[0].id not in env else ast.Name(id="__several__", ctx=ast.Load())
+        for r in [s_ for s_ in walk_no_nested(f.node) if isinstance(s_, ast.Return) and s_.value is not None]:
+            sg = _sign(r.value, env)
+            n += 1
+            if sg == "unknown":
+                raise AnalysisError(f"{f.qualname}: sign of the returned coefficient `{norm(r.value)[:80]}` is outside the sign rules")
+            L.check(sg == "nonneg", "R6", f"{f.qualname}:non-negative", f"{f.module.relpath}:{r.lineno}",
+                    f"the variation coefficient `{norm(r.value)[:110]}` can be negative (a spread divided / combined with a signed quantity): the update functions are only maps of [0, ∞) into (0, 1]",
+                    "committee whose mean is negative or near zero (forces average out): update(v<0) > 1, delta exceeds max_delta and is no longer monotone in the variance", norm(r.value)[:120])
+    L.floor("scheme return values sign-checked", n, 4)
+
+
 def _stmt_index(body, node) -> int:
     """position of the top-level statement that contains `node`"""
     for i, st in enumerate(body):
@@ -102,6 +179,8 @@ def run(prog: Program, L: Ledger) -> None:
     L.rule("R3", "delta = min_delta + (max_delta − min_delta)·update(variation)")
     L.rule("R4", "without committee data each variation-coefficient getter returns reference_variance (broadcast)")
     L.rule("R5", "step() calls update_delta() before the inherited force-bias step on every path")
+    L.rule("R6", "every scheme returns a non-negative variation coefficient (structural sign analysis: spreads, absolute values, counts and their sums / products / quotients)")
+    L.assume("reference_variance is configured non-negative")
 
     afb = prog.cls("AdaptiveForceBias")
     init = afb.methods.get("__init__")
@@ -275,6 +354,8 @@ def run(prog: Program, L: Ledger) -> None:
             if not rets:
                 L.violation("R4", f"{f.qualname}:fallback", f.where, "except handler does not return the reference variance", "", "fallback")
     L.floor("fallback returns", n, 2)
+
+    _check_nonnegative_schemes(prog, L, afb, schemes)
 
     # ---------------------------------------------------------------- R5
     st = afb.methods.get("step")
